@@ -19,8 +19,12 @@
 //! The scratch window is EXACTLY `tmp_bytes` bytes at a 64-byte aligned address; if the operation rejects it with the
 //! scratch-size panic (property C12's domain) the window grows in steps of 64 bytes until the operation accepts it.
 #![allow(clippy::too_many_arguments, clippy::type_complexity)]
+use poulpy_core::api::*;
+use poulpy_core::layouts::*;
+use poulpy_core::{EncryptionLayout, ScratchTakeCore};
 use poulpy_hal::api::*;
 use poulpy_hal::layouts::*;
+use poulpy_hal::source::Source;
 use poulpy_verif_harness::rec::*;
 use poulpy_verif_harness::with_be;
 use std::io::Cursor;
@@ -104,6 +108,11 @@ pub fn op_info(opc: i64) -> Option<([u8; 3], bool, bool, bool)> {
         70 => ([v, m, x], false, true, true),   // vmp_prepare             (rows e0)
         71 => ([d, d, v], false, true, true),   // vmp_apply_dft_to_dft    (rows e0, limb_offset e1)
         72 => ([d, z, v], false, true, true),   // vmp_apply_dft           (rows e0)
+        // core level: every ciphertext / plaintext operand is CARVED out of its own scratch window (take_glwe ...)
+        90 => ([z, z, x], false, true, true),   // glwe_encrypt_sk  (res: GLWE rank e2, a: plaintext)   base2k e0
+        91 => ([z, z, x], false, true, true),   // glwe_decrypt     (res: plaintext, a: GLWE)
+        92 => ([z, z, x], false, true, true),   // glwe_keyswitch   (res, a: GLWE; key size b.size, dsize e3)
+        93 => ([z, z, x], false, true, true),   // glwe_external_product (res, a: GLWE; ggsw size b.size, dsize e3)
         _ => return None,
     })
 }
@@ -177,6 +186,13 @@ fn history_owned(q: &Par, kind: u8) -> Option<HistOut> {
             if q.hist == 6 { let m = rc.max_size(); rc.set_size(m); }
             Some(HistOut { hdr: hdr_of(&rc), rejected: false, bytes: Some(rc.data.clone()) })
         }
+        12 => {
+            // set_size beyond the capacity: the assert in set_size must reject it (a panic here is the expected outcome)
+            let mut v = VecZnx::alloc(n, cols, size);
+            let m = v.max_size();
+            v.set_size(m + 1);
+            Some(HistOut { hdr: hdr_of(&v), rejected: false, bytes: Some(v.data.clone()) })
+        }
         10 => {
             // header rewritten CONSISTENTLY (same product, max_size = size): read_from accepts it
             let (n2, c2, s2) = refactor(n, cols, size, q.hp1);
@@ -216,6 +232,11 @@ fn r64(x: usize) -> usize { x.div_ceil(64) * 64 }
 /// lay the operands out; the subject's header comes from its history
 fn plan(q: &Par) -> Plan {
     let (kinds, _, _, _) = op_info(q.opc).expect("c17: unknown op");
+    if q.opc >= 90 {
+        let mut opd = [Opd { kind: K_NONE, ..Default::default() }; 3];
+        for o in 0..2 { opd[o].h = Hdr { n: q.n, cols: q.cols[o], size: q.size[o], max: q.size[o], len: q.n * q.cols[o] * q.size[o] * 8, w: 8 }; }
+        return Plan { opd, rejected: false, illformed: false, total: 0, sc_off: 0, init: None };
+    }
     let mut opd = [Opd { kind: K_NONE, ..Default::default() }; 3];
     let mut off = GUARD;
     let mut rejected = false; let mut illformed = false; let mut init = None;
@@ -238,7 +259,7 @@ fn plan(q: &Par) -> Plan {
             match q.hist {
                 0 => {}
                 1 => { h.max = size + q.hp1 as usize; h.len = q.n * cols * h.max * w; }
-                2..=6 | 10 => {
+                2..=6 | 10 | 12 => {
                     let ho = history_owned(q, kind).expect("c17: history needs a VecZnx subject");
                     h = ho.hdr; rejected = ho.rejected; init = ho.bytes;
                 }
@@ -250,6 +271,7 @@ fn plan(q: &Par) -> Plan {
             }
             illformed = !(kind == K_M || kind == K_V) && !h.inv();
         }
+        if std::env::var("C17_SEPARATE").is_ok() { start_shift = 0; }   // own allocations start 64-aligned
         off = r64(off);
         if carved {
             let pad = (64 - start_shift % 64) % 64;
@@ -282,12 +304,21 @@ fn garbage(buf: &mut [u8], g: &mut Rng) {
 
 /// one run with one garbage fill; `slack` extra scratch bytes beyond tmp_bytes; `force` runs ill-formed subjects too
 fn run_once(q: &Par, pl: &Plan, fill: u64, slack: usize, force: bool) -> Obs {
+    if q.opc >= 90 { return run_core(q, fill, slack); }
     let q = *q;
     let (kinds, res_in, whole, _uses_sc) = op_info(q.opc).unwrap();
     with_be!(q.be, BE, {
         let module: Module<BE> = Module::<BE>::new(q.n as u64);
         let n = q.n;
         let o = pl.opd;
+        // an ill-formed subject is USED only on request (hazard stream) and only when the overshoot stays inside the guards
+        let overshoot: u128 = {
+            let h = o[q.subj].h;
+            ((h.n as u128) * (h.cols as u128) * (h.size as u128) * (h.w as u128)).saturating_sub(h.len as u128)
+        };
+        if pl.rejected || (pl.illformed && !(force && overshoot <= (GUARD / 2) as u128)) {
+            return Obs { status: if pl.rejected { 2 } else { 3 }, canary_ok: true, viol: 0, digest: vec![], scratch_panic: false };
+        }
         // ---- scratch need
         let rows = q.e[0].max(0) as usize;
         let need: usize = match q.opc {
@@ -306,13 +337,42 @@ fn run_once(q: &Par, pl: &Plan, fill: u64, slack: usize, force: bool) -> Obs {
             _ => 0,
         } + slack;
         let total = pl.sc_off + need + GUARD + 64;
-        let mut arena: Vec<u8> = poulpy_hal::alloc_aligned::<u8>(total);
+        // under Miri (C17_MIRI=1) the library's own aligned allocator cannot be used: dropping its Vec<u8> is the
+        // documented layout-mismatch UB and Miri stops at the first UB; the arena is then allocated (and leaked) here
+        let miri = std::env::var("C17_MIRI").is_ok();
+        let mut arena: Vec<u8> = if miri {
+            let t = r64(total);
+            unsafe { Vec::from_raw_parts(std::alloc::alloc_zeroed(std::alloc::Layout::from_size_align(t, 64).unwrap()), t, t) }
+        } else { poulpy_hal::alloc_aligned::<u8>(total) };
         let total = arena.len();
         assert!(arena.as_ptr() as usize % 64 == 0);
         let mut g = Rng::new(fill);
         garbage(&mut arena, &mut g);
         let base: *mut u8 = arena.as_mut_ptr();
-        let sl = |off: usize, len: usize| -> &'static mut [u8] {
+        // C17_SEPARATE=1 (sanitizer runs): every operand region and the scratch window is its own exact-size heap
+        // allocation, so that AddressSanitizer's redzones sit right behind each of them; offsets are translated
+        let separate = std::env::var("C17_SEPARATE").is_ok();
+        let mut reg: Vec<(usize, usize, *mut u8)> = Vec::new();
+        if separate {
+            let mut rs: Vec<(usize, usize)> = (0..3).filter(|k| kinds[*k] != K_NONE).map(|k| (o[k].win_off, o[k].win_len)).collect();
+            rs.push((pl.sc_off, need));
+            for (lo, len) in rs {
+                let lay = std::alloc::Layout::from_size_align(len.max(1), 64).unwrap();
+                let p = unsafe { std::alloc::alloc(lay) };
+                assert!(!p.is_null());
+                // C17_UNINIT=1 (memcheck runs): non-input bytes stay UNINITIALISED instead of garbage-filled
+                if std::env::var("C17_UNINIT").is_err() { unsafe { std::ptr::copy_nonoverlapping(base.add(lo), p, len); } }
+                reg.push((lo, len, p));
+            }
+        }
+        let reg_ref = &reg;
+        let sl = move |off: usize, len: usize| -> &'static mut [u8] {
+            if separate {
+                for (lo, l, p) in reg_ref.iter() {
+                    if off >= *lo && off <= *lo + *l { return unsafe { std::slice::from_raw_parts_mut(p.add(off - *lo), len) }; }
+                }
+                panic!("c17: offset outside every region");
+            }
             assert!(off + len <= total);
             unsafe { std::slice::from_raw_parts_mut(base.add(off), len) }
         };
@@ -331,8 +391,10 @@ fn run_once(q: &Par, pl: &Plan, fill: u64, slack: usize, force: bool) -> Obs {
             if !is_input { continue; }
             // active part (limbs [0,size) of every column) = a prefix of the buffer; never beyond the buffer
             let act_words = match kinds[k] { K_M | K_V => o[k].rows * o[k].cin * o[k].cout * h.size, _ => h.cols * h.size };
-            let act_bytes = (n * act_words * h.w).min(h.len);
+            let act_bytes = (h.n * act_words * h.w).min(h.len);
+            let foreign_n = h.n != n;   // an operand of another ring degree: DFT-domain images cannot be produced, raw words are used
             match kinds[k] {
+                _ if foreign_n && h.w != 16 => fill_words(sl(o[k].off, act_bytes / 8 * 8), &mut gd, bits),
                 K_Z | K_S | K_M => fill_words(sl(o[k].off, act_bytes / 8 * 8), &mut gd, bits),
                 K_B => {
                     if h.w == 8 { fill_words(sl(o[k].off, act_bytes / 8 * 8), &mut gd, 40) }
@@ -375,9 +437,6 @@ fn run_once(q: &Par, pl: &Plan, fill: u64, slack: usize, force: bool) -> Obs {
         let mut regions: Vec<(usize, usize)> = (0..3).filter(|k| kinds[*k] != K_NONE).map(|k| (o[k].win_off, o[k].win_len)).collect();
         regions.push((pl.sc_off, need));
         let before: Vec<u8> = arena.clone();
-        if (pl.rejected || pl.illformed) && !force {
-            return Obs { status: if pl.rejected { 2 } else { 3 }, canary_ok: true, viol: 0, digest: vec![], scratch_panic: false };
-        }
         hook_reset();
         let mut carve_ok = true;
         let res = catch_unwind(AssertUnwindSafe(|| -> Vec<u8> {
@@ -387,8 +446,8 @@ fn run_once(q: &Par, pl: &Plan, fill: u64, slack: usize, force: bool) -> Obs {
             macro_rules! vd { ($k:expr) => { VecZnxDft::<&mut [u8], BE> { data: sl(o[$k].off, o[$k].h.len), n: o[$k].h.n, cols: o[$k].h.cols, size: o[$k].h.size, max_size: o[$k].h.max, _phantom: std::marker::PhantomData } } }
             macro_rules! sz { ($k:expr) => { ScalarZnx { data: sl(o[$k].off, o[$k].h.len), n: o[$k].h.n, cols: o[$k].h.cols } } }
             macro_rules! sp { ($k:expr) => { SvpPPol::<&mut [u8], BE> { data: sl(o[$k].off, o[$k].h.len), n: o[$k].h.n, cols: o[$k].h.cols, _phantom: std::marker::PhantomData } } }
-            macro_rules! mz { ($k:expr) => { MatZnx::from_data(sl(o[$k].off, o[$k].h.len), n, o[$k].rows, o[$k].cin, o[$k].cout, o[$k].h.size) } }
-            macro_rules! vm { ($k:expr) => { VmpPMat::<&mut [u8], BE>::from_data(sl(o[$k].off, o[$k].h.len), n, o[$k].rows, o[$k].cin, o[$k].cout, o[$k].h.size) } }
+            macro_rules! mz { ($k:expr) => { MatZnx::from_data(sl(o[$k].off, o[$k].h.len), o[$k].h.n, o[$k].rows, o[$k].cin, o[$k].cout, o[$k].h.size) } }
+            macro_rules! vm { ($k:expr) => { VmpPMat::<&mut [u8], BE>::from_data(sl(o[$k].off, o[$k].h.len), o[$k].h.n, o[$k].rows, o[$k].cin, o[$k].cout, o[$k].h.size) } }
             // ---- carving out of a scratch window: the object must be where the arena model says
             for k in 0..3 {
                 if kinds[k] == K_NONE || !o[k].carved { continue; }
@@ -403,8 +462,8 @@ fn run_once(q: &Par, pl: &Plan, fill: u64, slack: usize, force: bool) -> Obs {
                     K_M => { let (v, r) = win.take_mat_znx(n, o[k].rows, o[k].cin, o[k].cout, h.size); (v.data().as_ptr() as usize, v.data().len(), r.data.as_ptr() as usize, r.data.len()) }
                     _ => { let (v, r) = win.take_vmp_pmat(&module, o[k].rows, o[k].cin, o[k].cout, h.size); let v: VmpPMat<&mut [u8], BE> = v; (v.data().as_ptr() as usize, v.data().len(), r.data.as_ptr() as usize, r.data.len()) }
                 };
-                let b0 = base as usize;
-                if !(p % 64 == 0 && p == b0 + o[k].off && l == h.len && rp == p + l && rp + rl == b0 + o[k].win_off + o[k].win_len) { carve_ok = false; }
+                let (pw, po) = (sl(o[k].win_off, 0).as_ptr() as usize, sl(o[k].off, 0).as_ptr() as usize);
+                if !(p % 64 == 0 && p == po && l == h.len && rp == p + l && rp + rl == pw + o[k].win_len) { carve_ok = false; }
             }
             let sc: &mut Scratch<BE> = Scratch::<BE>::from_bytes(sl(pl.sc_off, need));
             let (rc, ac, bc) = (o[0].col, o[1].col, o[2].col);
@@ -457,7 +516,7 @@ fn run_once(q: &Par, pl: &Plan, fill: u64, slack: usize, force: bool) -> Obs {
                     let big: VecZnxBig<&mut [u8], BE> = module.vec_znx_idft_apply_consume(vd!(0));
                     // the returned view must still be the same bytes and well formed for the big word size
                     let wb = std::mem::size_of::<<BE as Backend>::ScalarBig>();
-                    if !(big.data.as_ptr() as usize == base as usize + o[0].off && big.n() * big.cols() * big.size() * wb <= big.data.len()) { carve_ok = false; }
+                    if !(big.data.as_ptr() as usize == sl(o[0].off, 0).as_ptr() as usize && big.n() * big.cols() * big.size() * wb <= big.data.len()) { carve_ok = false; }
                     let mut out = Vec::new();
                     let (bn, bc_, bs) = (big.n(), big.cols(), big.size());
                     for c in 0..bc_ { for j in 0..bs { let b0 = bn * (j * bc_ + c) * wb; out.extend_from_slice(sl(o[0].off + b0, bn * wb)); } }
@@ -496,6 +555,121 @@ fn run_once(q: &Par, pl: &Plan, fill: u64, slack: usize, force: bool) -> Obs {
             i = i.max(lo + len);
         }
         if i < total && arena[i..] != before[i..] { ok = false; }
+        if miri { std::mem::forget(std::mem::take(&mut arena)); std::mem::forget(module); }
+        for (_, len, p) in reg.iter() { unsafe { std::alloc::dealloc(*p, std::alloc::Layout::from_size_align((*len).max(1), 64).unwrap()); } }
+        match res {
+            Ok(d) => Obs { status: 0, canary_ok: ok, viol, digest: d, scratch_panic: false },
+            Err(p) => {
+                let m = panic_class(p);
+                if std::env::var("C17_VERBOSE").is_ok() { eprintln!("c17: panic: {}", m); }
+                let sp = m.starts_with("Attempted to take") || m.contains("scratch.available()");
+                Obs { status: 1, canary_ok: ok, viol, digest: vec![], scratch_panic: sp }
+            }
+        }
+    })
+}
+
+
+fn src(seed: u64) -> Source { let mut s = [0u8; 32]; s[..8].copy_from_slice(&seed.to_le_bytes()); Source::new(s) }
+
+/// core-level operations on operands carved out of scratch windows inside the canary arena
+fn run_core(q: &Par, fill: u64, slack: usize) -> Obs {
+    let q = *q;
+    with_be!(q.be, BE, {
+        let n = q.n;
+        let module: Module<BE> = Module::<BE>::new(n as u64);
+        let (b2k, rank, dsize) = (q.e[0] as u32, q.e[2] as u32, (q.e[3] as u32).max(1));
+        let lay = |size: usize| GLWELayout { n: Degree(n as u32), base2k: Base2K(b2k), k: TorusPrecision(b2k * size as u32), rank: Rank(rank) };
+        let (lr, la) = (lay(q.size[0]), lay(q.size[1]));
+        let ksz = q.size[2] as u32;
+        let dnum = (q.size[1] as u32).div_ceil(dsize).max(1);
+        let lk = GGLWELayout { n: Degree(n as u32), base2k: Base2K(b2k), k: TorusPrecision(b2k * ksz), rank_out: Rank(rank), rank_in: Rank(rank), dnum: Dnum(dnum), dsize: Dsize(dsize) };
+        let lg = GGSWLayout { n: Degree(n as u32), base2k: Base2K(b2k), k: TorusPrecision(b2k * ksz), rank: Rank(rank), dnum: Dnum(dnum), dsize: Dsize(dsize) };
+        // owned key material (outside the arena)
+        let mut sk = GLWESecret::alloc_from_infos(&lr); sk.fill_ternary_prob(0.5, &mut src(q.seed ^ 1));
+        let mut skp = module.glwe_secret_prepared_alloc(lr.rank); module.glwe_secret_prepare(&mut skp, &sk);
+        let infos = EncryptionLayout::new_from_default_sigma(lr).unwrap();
+        let big = |bytes: usize| -> ScratchOwned<BE> { ScratchOwned::<BE>::alloc(bytes + (1 << 16)) };
+        // windows: res, a, scratch; the subject's window starts 8*hp1 bytes after a 64-byte boundary
+        let bytes = |cols: usize, size: usize| n * cols * size * 8;
+        let (rcols, acols) = (q.cols[0], q.cols[1]);
+        let shift = |k: usize| if k == q.subj { 8 * q.hp1 as usize } else { 0 };
+        let pad = |k: usize| (64 - shift(k) % 64) % 64;
+        let w0 = r64(GUARD) + shift(0); let l0 = pad(0) + bytes(rcols, q.size[0]);
+        let w1 = r64(w0 + l0 + GUARD) + shift(1); let l1 = pad(1) + bytes(acols, q.size[1]);
+        let sc_off = r64(w1 + l1 + GUARD);
+        let need = match q.opc {
+            90 => module.glwe_encrypt_sk_tmp_bytes(&lr),
+            91 => module.glwe_decrypt_tmp_bytes(&la),
+            92 => module.glwe_keyswitch_tmp_bytes(&lr, &la, &lk),
+            _ => module.glwe_external_product_tmp_bytes(&lr, &la, &lg),
+        } + slack;
+        let mut arena: Vec<u8> = poulpy_hal::alloc_aligned::<u8>(sc_off + need + GUARD + 64);
+        let total = arena.len();
+        let mut g = Rng::new(fill);
+        garbage(&mut arena, &mut g);
+        let base: *mut u8 = arena.as_mut_ptr();
+        let sl = |off: usize, len: usize| -> &'static mut [u8] { assert!(off + len <= total); unsafe { std::slice::from_raw_parts_mut(base.add(off), len) } };
+        let mut regions = vec![(w0, l0), (w1, l1), (sc_off, need)];
+        let before: Vec<u8> = arena.clone();
+        hook_reset();
+        let mut carve_ok = true;
+        let res = catch_unwind(AssertUnwindSafe(|| -> Vec<u8> {
+            let win0: &mut Scratch<BE> = Scratch::<BE>::from_bytes(sl(w0, l0));
+            let win1: &mut Scratch<BE> = Scratch::<BE>::from_bytes(sl(w1, l1));
+            let sc: &mut Scratch<BE> = Scratch::<BE>::from_bytes(sl(sc_off, need));
+            let mut chk = |p: usize, l: usize, woff: usize, wl: usize, k: usize| {
+                if !(p % 64 == 0 && p == base as usize + woff + pad(k) && p + l == base as usize + woff + wl) { carve_ok = false; }
+            };
+            match q.opc {
+                90 => {
+                    let (mut ct, _) = win0.take_glwe(&lr);
+                    let (mut pt, _) = win1.take_glwe_plaintext(&la);
+                    chk(ct.data().data.as_ptr() as usize, ct.data().data.len(), w0, l0, 0);
+                    chk(pt.data.data.as_ptr() as usize, pt.data.data.len(), w1, l1, 1);
+                    module.vec_znx_fill_uniform(b2k as usize, &mut pt.data, 0, &mut src(q.seed ^ 2));
+                    module.glwe_encrypt_sk(&mut ct, &pt, &skp, &infos, &mut src(q.seed ^ 3), &mut src(q.seed ^ 4), sc);
+                    ct.data().data.to_vec()
+                }
+                91 => {
+                    let (mut pt, _) = win0.take_glwe_plaintext(&lr);
+                    let (mut ct, _) = win1.take_glwe(&la);
+                    chk(pt.data.data.as_ptr() as usize, pt.data.data.len(), w0, l0, 0);
+                    chk(ct.data().data.as_ptr() as usize, ct.data().data.len(), w1, l1, 1);
+                    ct.fill_uniform(b2k as usize, &mut src(q.seed ^ 5));
+                    module.glwe_decrypt(&ct, &mut pt, &skp, sc);
+                    pt.data.data.to_vec()
+                }
+                _ => {
+                    let (mut r, _) = win0.take_glwe(&lr);
+                    let (mut a, _) = win1.take_glwe(&la);
+                    chk(r.data().data.as_ptr() as usize, r.data().data.len(), w0, l0, 0);
+                    chk(a.data().data.as_ptr() as usize, a.data().data.len(), w1, l1, 1);
+                    a.fill_uniform(b2k as usize, &mut src(q.seed ^ 6));
+                    if q.opc == 92 {
+                        let mut key = GGLWE::alloc_from_infos(&lk); key.fill_uniform(b2k as usize, &mut src(q.seed ^ 7));
+                        let mut kp = module.gglwe_prepared_alloc_from_infos(&lk);
+                        let mut sb = big(module.gglwe_prepare_tmp_bytes(&lk)); module.gglwe_prepare(&mut kp, &key, sb.borrow());
+                        module.glwe_keyswitch(&mut r, &a, &kp, sc);
+                    } else {
+                        let mut gg = GGSW::alloc_from_infos(&lg); gg.fill_uniform(b2k as usize, &mut src(q.seed ^ 8));
+                        let mut gp = module.ggsw_prepared_alloc_from_infos(&lg);
+                        let mut sb = big(module.ggsw_prepare_tmp_bytes(&lg)); module.ggsw_prepare(&mut gp, &gg, sb.borrow());
+                        module.glwe_external_product(&mut r, &a, &gp, sc);
+                    }
+                    r.data().data.to_vec()
+                }
+            }
+        }));
+        let viol = hook_violations();
+        let mut ok = carve_ok;
+        let mut i = 0usize;
+        regions.sort();
+        for (lo, len) in regions {
+            if lo > i && arena[i..lo] != before[i..lo] { ok = false; }
+            i = i.max(lo + len);
+        }
+        if i < total && arena[i..] != before[i..] { ok = false; }
         match res {
             Ok(d) => Obs { status: 0, canary_ok: ok, viol, digest: d, scratch_panic: false },
             Err(p) => {
@@ -526,7 +700,7 @@ fn observe(q: &Par, force: bool) -> (Vec<i128>, Vec<i128>, usize) {
 pub fn exec(r: &Rec) -> Out {
     let q = par(r);
     // a panic outside the observed call (module creation, input preparation) is reported as such
-    match catch_unwind(AssertUnwindSafe(|| observe(&q, false))) {
+    match catch_unwind(AssertUnwindSafe(|| observe(&q, r.code != 17000))) {
         Ok((o, h, _)) => Ok(vec![o, h]),
         Err(p) => Err(format!("setup: {}", panic_class(p))),
     }
@@ -541,26 +715,43 @@ fn mk(be: i128, opc: i64, n: usize, hist: i64, subj: usize, hp1: i64, hp2: i64, 
     Rec::new(17000, ps, vec![])
 }
 
-const OPS: [i64; 51] = [1, 2, 3, 4, 5, 6, 7, 8, 9, 10, 11, 12, 13, 14, 15, 16, 20, 21, 22, 23, 24, 25, 26, 27, 28, 29,
-                        40, 41, 42, 43, 44, 45, 46, 47, 48, 50, 51, 52, 53, 54, 55, 56, 57, 58, 60, 61, 62, 63, 70, 71, 72];
+const OPS: [i64; 55] = [1, 2, 3, 4, 5, 6, 7, 8, 9, 10, 11, 12, 13, 14, 15, 16, 20, 21, 22, 23, 24, 25, 26, 27, 28, 29,
+                        40, 41, 42, 43, 44, 45, 46, 47, 48, 50, 51, 52, 53, 54, 55, 56, 57, 58, 60, 61, 62, 63, 70, 71, 72, 90, 91, 92, 93];
 
 /// smallest ring degree the operation family is exercised with on a backend (the FFT64 transforms need n >= 16,
 /// the NTT120 ones n >= 2; see DESIGN / evidence notes)
+/// smallest ring degree of the MAIN stream per backend and family: below it the call is either rejected by a defined
+/// panic during input preparation (FFT64 transforms at n = 1) or lies in one of the known-finding zones that the
+/// hazard stream exercises in isolated processes (FFT64Avx DFT-domain kernels without tail for n < 8, FFT64 vmp for
+/// n < 8, NTT120 vmp at n = 1)
 fn min_n(be: i128, opc: i64) -> usize {
     if std::env::var("C17_MIN_N_1").is_ok() { return 1; }
-    if opc < 50 { 1 } else if be <= 2 { 16 } else { 2 }
+    if opc < 50 { 1 }
+    else if opc >= 90 { if be <= 2 { 16 } else { 2 } }
+    else if opc >= 70 { if be <= 2 { 8 } else { 2 } }
+    else if be == 1 { 2 } else if be == 2 { 8 } else { 1 }
 }
 
-pub fn generate(tier: &str, seed: u64) -> Vec<Rec> {
-    let mut g = Rng::new(seed ^ 0xC17);
+pub fn generate(tier: &str, seed: u64) -> Vec<Rec> { gen_stream(tier, seed, 0) }
+
+/// zone 0 = main stream (admissible calls and cleanly rejected ones); zones 1..5 = the hazard stream:
+///   1 FFT64Avx DFT-domain operations at n in {2,4}      2 FFT64 vmp family at n in {2,4}      3 NTT120 vmp family at n = 1
+///   4 an operand of another ring degree (histories 10, 11)      5 ill-formed subjects (histories 4, 6, 9) actually USED
+pub fn gen_stream(tier: &str, seed: u64, zone: u8) -> Vec<Rec> {
+    let mut g = Rng::new(seed ^ 0xC17 ^ ((zone as u64) << 32));
     let mut out = Vec::new();
-    let reps = if tier == "thorough" { 40 } else { 6 };
+    let reps = if zone != 0 { if tier == "thorough" { 6 } else { 2 } } else if tier == "thorough" { 150 } else { 30 };
     for rep in 0..reps {
         for be in 1..=4i128 {
             for &opc in OPS.iter() {
                 let (kinds, _, _, _) = op_info(opc).unwrap();
                 let mn = min_n(be, opc);
-                let nn: Vec<usize> = [1usize, 2, 4, 8, 16, 32, 64].iter().copied().filter(|x| *x >= mn).collect();
+                let nn: Vec<usize> = match zone {
+                    1 => { if !(be == 2 && (50..70).contains(&opc)) { continue; } vec![2, 4] }
+                    2 => { if !(be <= 2 && opc >= 70) { continue; } vec![2, 4] }
+                    3 => { if !(be >= 3 && opc >= 70) { continue; } vec![1] }
+                    _ => [1usize, 2, 4, 8, 16, 32, 64, 128].iter().copied().filter(|x| *x >= mn).collect(),
+                };
                 let n = if rep == 0 { nn[0] } else { g.pick(&nn) };
                 let mut sh = [[0usize; 3]; 3];
                 for o in 0..3 { let cols = g.range(1, 3) as usize; sh[o] = [cols, g.pick(&[1usize, 2, 3, 5]), g.below(cols as u64) as usize]; }
@@ -575,27 +766,44 @@ pub fn generate(tier: &str, seed: u64) -> Vec<Rec> {
                     50 | 55 => { e[0] = g.range(1, 3); e[1] = g.range(0, 4); }
                     70 => { e[0] = g.range(1, 3); }
                     71 | 72 => { e[0] = g.range(1, 3); e[1] = if opc == 71 { g.range(0, sh[2][1] as i64) } else { 0 }; sh[2][0] = 1; sh[2][2] = 0; }
+                    90..=93 => {
+                        let rank = g.range(1, 2) as usize;
+                        e[0] = g.range(8, 17); e[2] = rank as i64; e[3] = g.range(1, 2);
+                        sh[0] = [if opc == 91 { 1 } else { rank + 1 }, g.pick(&[1usize, 2, 3]), 0];
+                        sh[1] = [if opc == 90 { 1 } else { rank + 1 }, g.pick(&[1usize, 2, 3]), 0];
+                        // a valid key layout: dnum * dsize <= key size and dsize < key size
+                        let ds = e[3] as usize; let dnum = sh[1][1].div_ceil(ds).max(1);
+                        sh[2] = [1, (dnum * ds).max(ds + 1) + g.below(2) as usize, 0];
+                    }
                     _ => {}
                 }
+                if opc >= 90 && zone != 0 { continue; }
                 // history: which operand, which kind of history it admits
                 let subj = { let c: Vec<usize> = (0..3).filter(|o| kinds[*o] != K_NONE).collect(); c[g.below(c.len() as u64) as usize] };
                 let kind = kinds[subj];
                 let mut hs: Vec<i64> = vec![0, 0, 7, 8];
                 if kind == K_Z || kind == K_D { hs.extend([1, 1]); }
-                if kind == K_Z { hs.extend([2, 3, 3, 4, 5, 5, 6, 9]); }
-                if std::env::var("C17_NMIS").is_ok() { if kind == K_Z { hs = vec![10, 11]; } else { hs = vec![11]; } }
+                if kind == K_Z { hs.extend([2, 3, 3, 4, 5, 5, 6, 9, 12]); }
+                match zone {
+                    1..=3 => hs = vec![0],
+                    4 => { if kind == K_Z { hs = vec![10, 11]; } else { hs = vec![11]; } }
+                    5 => { if kind == K_Z { hs = vec![4, 6, 9]; } else { continue; } }
+                    _ => {}
+                }
                 if opc == 58 { hs.retain(|h| *h != 1); }   // consume: the big view reuses the active prefix only
+                if opc >= 90 { hs = vec![7]; }
+                let subj = if opc >= 90 { g.below(2) as usize } else { subj };
                 let hist = g.pick(&hs);
                 let size = sh[subj][1]; let cols = sh[subj][0];
                 let (hp1, hp2): (i64, i64) = match hist {
                     1 => (g.range(1, 2), 0),
                     2 => (0, g.pick(&[1i64, size as i64, size as i64 + 1, size as i64 + 2])),
-                    3 | 4 => { let c = g.below(4); match c { 0 => (0, 0), 1 => (1, 1), 2 => (0, 2), _ => (g.range(1, 2), 0) } }
-                    5 | 6 => { let k = g.below(5) as i64; let v = match k {
+                    3 | 4 => { let c = if zone == 5 { 3 } else { g.below(4) }; match c { 0 => (0, 0), 1 => (1, 1), 2 => (0, 2), _ => (g.range(1, 2), 0) } }
+                    5 | 6 => { let k = if zone == 5 { 3 } else { g.below(5) as i64 }; let v = match k {
                                   0 => g.pick(&[n as i64 * 2, (n as i64 / 2).max(1), cols as i64]),
                                   1 => g.pick(&[cols as i64 + 1, size as i64, 1]),
                                   2 => g.pick(&[size as i64 + 1, cols as i64, 1]),
-                                  3 => g.pick(&[0, size as i64 - 1, size as i64 + 1, size as i64 + 2, 1 << 40]),
+                                  3 => if zone == 5 { g.pick(&[size as i64 + 1, size as i64 + 2]) } else { g.pick(&[0, size as i64 - 1, size as i64 + 1, size as i64 + 2, 1 << 40]) },
                                   _ => g.pick(&[0, 8, (n * cols * size * 8) as i64 + 8]) };
                                (k, v) }
                     7 => (g.range(0, 7), 0),
@@ -606,8 +814,10 @@ pub fn generate(tier: &str, seed: u64) -> Vec<Rec> {
                     _ => (0, 0),
                 };
                 // a few inadmissible column selectors (a defined panic is expected)
-                if g.below(24) == 0 { let o = subj; sh[o][2] = sh[o][0]; }
-                out.push(mk(be, opc, n, hist, subj, hp1, hp2, sh, e, g.next() >> 8));
+                if zone == 0 && opc <= 15 && matches!(hist, 0 | 1 | 7 | 8) && g.below(12) == 0 { let o = subj; sh[o][2] = sh[o][0]; }
+                let mut r = mk(be, opc, n, hist, subj, hp1, hp2, sh, e, g.next() >> 8);
+                if zone != 0 { r.code = 17000 + zone as i64; }
+                out.push(r);
             }
         }
     }
@@ -636,7 +846,9 @@ fn main() {
         // list <tier> <seed> <out_file>: the generated inputs only (nothing is run)
         use std::io::Write;
         let mut f = std::io::BufWriter::new(std::fs::File::create(&args[4]).unwrap());
-        for r in generate(&args[2], args[3].parse().unwrap()) { writeln!(f, "{}", r.line(&Ok(vec![]))).unwrap(); }
+        let seed: u64 = args[3].parse().unwrap();
+        let zones: Vec<u8> = if args.get(5).map(|s| s.as_str()) == Some("hazard") { vec![1, 2, 3, 4, 5] } else { vec![0] };
+        for z in zones { for r in gen_stream(&args[2], seed, z) { writeln!(f, "{}", r.line(&Ok(vec![]))).unwrap(); } }
         return;
     }
     poulpy_verif_harness::run_main(generate, exec)
